@@ -286,6 +286,18 @@ func evalC05(op string, args []string) string {
 		// (cases of this property run one after the other in a process)
 		saved := *radius.DefaultClient
 		defer func() { *radius.DefaultClient = saved }()
+		// DefaultClient is read when Exchange is CALLED: an earlier package-level call made under other settings
+		// (here: the opposite ones, with a context that is already over) leaves nothing behind for this one
+		func() {
+			defer func() { recover() }()
+			radius.DefaultClient.InsecureSkipVerify = !skip
+			radius.DefaultClient.MaxPacketErrors = 1
+			radius.DefaultClient.Retry = 3 * time.Millisecond
+			ctx, cancel := context.WithCancel(context.Background())
+			cancel()
+			radius.Exchange(ctx, req, "127.0.0.1:9")
+			*radius.DefaultClient = saved
+		}()
 		if strings.HasPrefix(args[5], "default:") {
 			maxErr = atoi(args[5][8:])
 			radius.DefaultClient.MaxPacketErrors = maxErr
@@ -349,6 +361,12 @@ func priorExchangeC05(client *radius.Client) {
 				r.Add(18, radius.Attribute(bytes.Repeat([]byte{0xee}, 250)))
 			}
 			if w, err := r.Encode(); err == nil {
+				// (two datagrams the client has to skip come first - one that does not parse, one that does not verify:
+				// what a call skipped is that call's business and is not carried over to the next one)
+				peer.WriteToUDP([]byte{2, buf[1], 0, 5, 0}, addr)
+				bad := append([]byte{}, w...)
+				bad[4] ^= 0x80
+				peer.WriteToUDP(bad, addr)
 				peer.WriteToUDP(w, addr)
 			}
 		}
